@@ -84,3 +84,86 @@ Definition api_ag_joins (v : val) : val :=
   let ls := getSS (argn 5 v) in
   VL [ofSS (joins Gen.Bio.protein_weights4 Gen.Bio.water4 lim nf true ls);
       ofSS (cleave_loop Gen.Bio.protein_weights4 Gen.Bio.water4 lim (concat ls) nf true (all_bounds ls))].
+
+(* stage tvg-bubbles against the MODEL algorithm.  [x; g; starts; off] ->
+     [side conditions (topo, bb_wf, bb_sorted); #real words; #model words; real words not in lang (add_bubbles tx vs);
+      obliged model words the real graph does not spell; number of non-obliged model words it does not spell] *)
+Definition api_ag_bubbles (v : val) : val :=
+  let x := cv_input (argn 0 v) in
+  let g := ag_graph (argn 1 v) in
+  let off := Z.to_nat (getZ (argn 3 v)) in
+  let rs := ag_lang_of g (ag_nats (argn 2 v)) in
+  let mo := bb_model_only x off rs in
+  VL [ofB (topo g && bb_wf (in_tx x) (in_vars x) && bb_sorted (in_vars x));
+      VZ (Z.of_nat (length rs)); VZ (Z.of_nat (length (bb_model x off)));
+      VL (map ag_word (ag_take 8 (bb_real_only x off rs)));
+      VL (map ag_word (ag_take 8 (fst mo)));
+      VZ (snd mo)].
+
+(* ---- graphs on derived backbones (round 2) ---- *)
+From MoPep Require Import Model.SpecFusion Model.SpecAS Model.SpecCirc Extract.Api_SpecFusion Extract.Api_SpecAS Extract.Api_SpecCirc.
+
+Definition ag_ext_reply (g : graph) (real : list seq) (uns mis : list seq) (nspec : nat) : val :=
+  VL [ofB (topo g); VZ (Z.of_nat (length real)); VZ (Z.of_nat nspec); ofSS (ag_take 6 uns); ofSS (ag_take 6 mis)].
+
+(* fusion graph.  [xd; bp; mid; mvars; xa; bp'; g; starts; off] -> [topo; #real strings; #permitted strings;
+   real strings not spelled by the fused backbone with any compatible record set; obliged strings missing] *)
+Definition api_ag_ext_fusion (v : val) : val :=
+  let xd := cv_input (argn 0 v) in let bp := getZ (argn 1 v) in
+  let mid := getS (argn 2 v) in let mv := cv_vars (argn 3 v) in
+  let xa := cv_input (argn 4 v) in let bp' := getZ (argn 5 v) in
+  let g := ag_graph (argn 6 v) in
+  let off := Z.to_nat (getZ (argn 8 v)) in
+  let real := dedup_seqs (strings (ag_lang_of g (ag_nats (argn 7 v)))) in
+  let y := fuse_gen xd bp mid mv xa bp' in
+  let ys := fuse_gen_strict xd bp mid mv xa bp' in
+  let nothing := (in_coding xd && negb (in_coding ys)) || existsb (fun p => (p - 3 <? bp) && (bp <=? p + 6)) (in_sec xd) in
+  let obl := if nothing then [] else ext_obliged off ys ([] :: filter (one_partner bp) (must_haps ys)) in
+  ag_ext_reply g real (ext_unsound off [y] real) (ext_missing obl real) (length (ext_strings off y)).
+
+(* fusion graph with the breakpoints moved by (d1, d2): signature of C02-fusion-junction-indel.
+   [xd; bp; xa; bp'; g; starts; off; strings] -> for each string: spelled by a fused backbone whose breakpoints
+   are moved by at most one base each (exonic fuse, as in cvcheck) *)
+Definition api_ag_ext_fusion_moved (v : val) : val :=
+  let xd := cv_input (argn 0 v) in let bp := getZ (argn 1 v) in
+  let xa := cv_input (argn 2 v) in let bp' := getZ (argn 3 v) in
+  let off := Z.to_nat (getZ (argn 4 v)) in
+  let alts := flat_map (fun d1 => flat_map (fun d2 => if (d1 =? 0) && (d2 =? 0) then [] else
+                          ext_strings off (fuse xd (bp + d1) xa (bp' + d2))) [-1; 0; 1]) [-1; 0; 1] in
+  VL (map (fun s => ofB (mem_seq (getS s) alts)) (getL (argn 5 v))).
+
+(* main graph of a transcript carrying alternative-splicing records.  [x; asrecs; g; starts; off; linear_must] *)
+Definition api_ag_ext_as (v : val) : val :=
+  let x := cv_input (argn 0 v) in
+  let rs := map cv_asrec (getL (argn 1 v)) in
+  let g := ag_graph (argn 2 v) in
+  let off := Z.to_nat (getZ (argn 4 v)) in
+  let real := dedup_seqs (strings (ag_lang_of g (ag_nats (argn 3 v)))) in
+  let ys := x :: map (as_apply_all x) (as_combos x rs) in
+  let obl := (if getB (argn 5 v) then ext_obliged off x ([] :: must_haps x) else ext_obliged off x [[]]) ++
+             flat_map (fun r => if as_must_ok x r
+                                then let y := as_apply_gen false x r in ext_obliged off y ([] :: must_haps y)
+                                else []) rs in
+  ag_ext_reply g real (ext_unsound off ys real) (ext_missing obl real) (length (flat_map (ext_strings off) ys)).
+
+(* circRNA graph.  [c; g; starts; off; first] : off bases cut from the head of the four-copy backbone *)
+Definition api_ag_ext_circ (v : val) : val :=
+  let c := cv_circ (argn 0 v) in
+  let g := ag_graph (argn 1 v) in
+  let off := Z.to_nat (getZ (argn 3 v)) in
+  let real := dedup_seqs (strings (ag_lang_of g (ag_nats (argn 2 v)))) in
+  let y := circ_linear true c in
+  let t := circ_turn (c_gene c) (c_frags c) in
+  let obl := map (fun h => skipn off (circ_hap c h))
+                 ([] :: filter circ_must_hap (haplotypes true (circ_vars false c))) in
+  ag_ext_reply g real (ext_unsound off [y] real) (ext_missing obl real) (length (ext_strings off y)).
+
+(* translation stage without record semantics.  [tvg; starts; pvg; starts; n ids] -> [topo; #t; #p; extra; missing] *)
+Definition api_ag_translate_plain (v : val) : val :=
+  let tg := ag_graph (argn 0 v) in
+  let pg := ag_graph (argn 2 v) in
+  let n := Z.to_nat (getZ (argn 4 v)) in
+  let tws := ag_lang_of tg (ag_nats (argn 1 v)) in
+  let pws := ag_lang_of pg (ag_nats (argn 3 v)) in
+  VL [ofB (topo tg && topo pg); VZ (Z.of_nat (length tws)); VZ (Z.of_nat (length pws));
+      VL (map ag_word (ag_take 6 (tr_extra n tws pws))); VL (map ag_word (ag_take 6 (tr_missing n tws pws)))].
